@@ -14,6 +14,7 @@ func main() {
 	repo := flag.String("repo", "/repo", "repository")
 	timeout := flag.Float64("t", 10, "solver timeout seconds")
 	dump := flag.Bool("dump", false, "dump obligations")
+	explain := flag.Bool("explain", false, "explain failed obligations conjunct by conjunct")
 	flag.Parse()
 	t0 := time.Now()
 	e, err := vc.Load(*repo)
@@ -33,11 +34,17 @@ func main() {
 		ctx.Discharge(sc)
 		bad := 0
 		for _, o := range ctx.Obls {
+			if o.Kind == "canary" { continue }
 			if o.Verdict != "unsat" || *dump {
 				fmt.Printf("  [%s %s %.2fs] %s @ %s\n", o.Verdict, o.Solver, o.TimeS, o.Name, o.Path)
 				if o.Verdict != "unsat" {
 					bad++
 					fmt.Printf("      file %s\n", o.File)
+					if *explain {
+						for _, l := range ctx.Explain(sc, o) {
+							fmt.Println("        ", l)
+						}
+					}
 				}
 			}
 		}
